@@ -16,6 +16,8 @@ from verif.reglang.alphabet import alphabet
 
 def _lang_of_cond(node: ast.AST, param: str, consts: dict, al) -> A.DFA:
     nomark = A.nomark(al)
+    if isinstance(node, ast.Name) and node.id != param and isinstance(consts.get("__locals__"), dict) and node.id in consts["__locals__"]:
+        return consts["__locals__"][node.id]  # a local name bound earlier to a condition over the parameter
     if isinstance(node, ast.Constant) and isinstance(node.value, bool):
         return nomark if node.value else nomark - nomark
     if isinstance(node, ast.UnaryOp) and isinstance(node.op, ast.Not):
@@ -95,9 +97,18 @@ def decision_language(module: str, func: str, param: str | None = None) -> tuple
     if body and isinstance(body[0], ast.Expr) and isinstance(body[0].value, ast.Constant) and isinstance(body[0].value.value, str):
         body = body[1:]
     done = False
+    consts = dict(consts)
+    consts["__locals__"] = {}
     for st in body:
         if done:
             raise ExtractionError("statements after the final return")
+        # `name = <condition over the parameter>`: a named sub-condition (single assignment, used by later tests)
+        if isinstance(st, ast.Assign) and len(st.targets) == 1 and isinstance(st.targets[0], ast.Name) and st.targets[0].id != param:
+            if st.targets[0].id in consts["__locals__"]:
+                raise ExtractionError(f"{func}: local `{st.targets[0].id}` is bound twice")
+            consts["__locals__"][st.targets[0].id] = _lang_of_cond(st.value, param, consts, al)
+            clauses.append(f"let {st.targets[0].id} = {ast.unparse(st.value)[:60]}")
+            continue
         # a returned expression is itself a condition over the parameter (`return True`,
         # `return not P.match(value)`, `return bool(...)`-free boolean combinations)
         if isinstance(st, ast.Return) and st.value is not None:
